@@ -196,7 +196,8 @@ func cmdC17(c *ctx) {
 				gopts.BindingMap[glsl.BindingMapKey{Group: uint32(k[0]), Binding: uint32(k[1])}] = uint8(v.reg + 16*v.space)
 			}
 			var gtxt string
-			r = guard("glsl", func() error { s, _, err := glsl.Compile(mod, gopts); gtxt = s; return err })
+			var ginfo glsl.TranslationInfo
+			r = guard("glsl", func() error { s, inf, err := glsl.Compile(mod, gopts); gtxt = s; ginfo = inf; return err })
 			kase := fmt.Sprintf("(c17glsl %s %s %s)", desc, mapS, e.name)
 			if r.err != "" {
 				emit(kase, "error "+oneLine(r.err), "glsl")
@@ -207,6 +208,27 @@ func cmdC17(c *ctx) {
 				blocks = append(blocks, fmt.Sprintf("%s:%s:%s", mt[5], mt[3], strings.ReplaceAll(mt[1], " ", "")))
 			}
 			emit(kase, "blocks "+sortedLines(blocks), "glsl")
+			// reflection vs text: TranslationInfo.Uniforms must list exactly the interface blocks of the text, each with its
+			// kind (uniform / buffer) and the (group, binding) of the global it was written for
+			var inText, inInfo []string
+			for _, mt := range reGlslBlock.FindAllStringSubmatch(gtxt, -1) {
+				gb := "?"
+				for _, g := range mm.globals {
+					if mt[5] == fmt.Sprintf("_group_%d_binding_%d_%s", g.group, g.binding, map[string]string{"vertex": "vs", "fragment": "fs", "compute": "cs"}[e.stage]) {
+						gb = fmt.Sprintf("%d,%d", g.group, g.binding)
+					}
+				}
+				inText = append(inText, fmt.Sprintf("%s storage=%v binding=%s", mt[4], mt[3] == "buffer", gb))
+			}
+			for _, u := range ginfo.Uniforms {
+				inInfo = append(inInfo, fmt.Sprintf("%s storage=%v binding=%d,%d", u.BlockName, u.IsStorage, u.Binding.Group, u.Binding.Binding))
+			}
+			if a, b := sortedLines(inText), sortedLines(inInfo); a != b {
+				c.line("reflect.txt", q("glsl TranslationInfo.Uniforms")+" "+q(b)+" "+q(a)+" "+q(src))
+				c.count("glsl-reflection-mismatch")
+			} else {
+				c.count("glsl-reflection-ok")
+			}
 		}
 	}
 }
